@@ -49,6 +49,16 @@ elif cfg["caught"] == "exception":
         raise ValueError("handled")
     except ValueError:
         pass
+elif cfg["caught"] in ("thread-dies", "thread-ok"):
+    # a helper thread of the program ends (by an uncaught exception of its own / normally); the main thread goes on
+    import threading
+
+    def _helper():
+        if cfg["caught"] == "thread-dies":
+            raise ValueError("helper thread failed")
+    _t = threading.Thread(target=_helper)
+    _t.start()
+    _t.join()
 
 
 def terminate(mode):
